@@ -69,6 +69,12 @@ FRAGMENT_HISTORY = [
                                "node:go": 48, "call:user-fn-args": 27, "call:string_len": 24,
                                "go-const-expr (operation on literals, not exact)": 12, "if:type": 12,
                                "float literal": 10, "dyn parameter": 10, "match:literal-arms": 9}},
+    {"stage": "+ go (go f for a lambda-lifted closure: `go apply(env)`, eager and non-eager schedule)",
+     "inside": 5483, "functions": 6160,
+     "first_reasons_outside": {"node:to-dyn": 226, "callee outside": 216, "same let re-declared in two match clauses": 81,
+                               "call:user-fn-args": 27, "call:string_len": 26,
+                               "go-const-expr (operation on literals, not exact)": 14, "if:type": 12,
+                               "float literal": 10, "dyn parameter": 10, "match:literal-arms": 9}},
 ]
 
 
